@@ -1,6 +1,12 @@
 (* Extraction of the C08 models and layouts to OCaml (ExtrOcamlBasic only). *)
 From EP Require Import Base.Bytes Roundtrip.Common Roundtrip.Spec.
 From EP Require Roundtrip.Tcp Roundtrip.Ipv4 Roundtrip.Frag Checksum.Model.
+(* ---- link/net types (extend-c08a) ---- *)
+From EP Require Roundtrip.SpecLinkNet Roundtrip.Macsec Roundtrip.Auth Roundtrip.RawExt Roundtrip.Ipv6.
+(* ---- end extend-c08a ---- *)
+(* ---- transport/control types (extend-c08b) ---- *)
+From EP Require Roundtrip.Udp Roundtrip.Icmp4 Roundtrip.Icmp6 Roundtrip.Igmp Roundtrip.Grec Roundtrip.Prefix.
+(* ---- end extend-c08b ---- *)
 From Coq Require Import Extraction ExtrOcamlBasic.
 Extraction Language OCaml.
 Extraction "m_c08.ml"
@@ -11,4 +17,27 @@ Extraction "m_c08.ml"
   Ipv4.i4o_try_from Ipv4.ip4_eqb Ipv4.ip4_keep_mask Ipv4.i4o_as_slice Ipv4.wf_ip4
   Frag.frag_to_bytes Frag.frag_write Frag.frag_header_len Frag.frag_from_slice Frag.frag_read
   Frag.wf_frag Frag.frag_keep_mask
+  (* ---- link/net types (extend-c08a) ---- *)
+  Macsec.mac_to_bytes Macsec.mac_write Macsec.mac_header_len Macsec.mac_from_slice Macsec.mac_read
+  Macsec.wf_mac Macsec.mac_in_range Macsec.mac_keep_mask Macsec.mac_encrypted Macsec.mac_userdata_changed
+  Macsec.mac_sci_some
+  Auth.ah_new Auth.ah_set_raw_icv Auth.ah_raw_icv Auth.ah_to_bytes Auth.ah_write Auth.ah_header_len
+  Auth.ah_from_slice Auth.ah_read Auth.ah_eqb Auth.ah_keep_mask Auth.wf_ah
+  RawExt.rx_new_raw RawExt.rx_set_payload RawExt.rx_payload RawExt.rx_to_bytes RawExt.rx_write
+  RawExt.rx_header_len RawExt.rx_from_slice RawExt.rx_read RawExt.rx_eqb RawExt.wf_rx
+  Ipv6.ip6_to_bytes Ipv6.ip6_write Ipv6.ip6_header_len Ipv6.ip6_from_slice Ipv6.ip6_read Ipv6.wf_ip6
+  SpecLinkNet.macsec_layout SpecLinkNet.ah_layout SpecLinkNet.rawext_layout SpecLinkNet.ipv6_layout
+  (* ---- end extend-c08a ---- *)
+  (* ---- transport/control types (extend-c08b) ---- *)
+  Udp.udp_to_bytes Udp.udp_write Udp.udp_header_len Udp.udp_from_slice Udp.udp_read Udp.wf_udp
+  Udp.udp_keep_mask Udp.udp_layout
+  Icmp4.icmp4_to_bytes Icmp4.icmp4_write Icmp4.icmp4_header_len Icmp4.icmp4_from_slice Icmp4.icmp4_read
+  Icmp4.wf_icmp4 Icmp4.icmp4_keep_mask
+  Icmp6.icmp6_to_bytes Icmp6.icmp6_write Icmp6.icmp6_header_len Icmp6.icmp6_from_slice Icmp6.icmp6_read
+  Icmp6.wf_icmp6 Icmp6.icmp6_keep_mask
+  Igmp.igmp_to_bytes Igmp.igmp_header_len Igmp.igmp_from_slice Igmp.wf_igmp Igmp.igmp_keep_mask
+  Grec.grec_to_bytes Grec.grec_len Grec.grec_from_slice Grec.wf_grec Grec.grec_keep_mask
+  Prefix.pi_to_bytes Prefix.pi_len Prefix.pi_from_slice Prefix.pi_from_bytes Prefix.wf_pi Prefix.pi_keep_mask
+  Prefix.pi_layout
+  (* ---- end extend-c08b ---- *)
   tcp_layout ipv4_layout frag_layout.
